@@ -296,10 +296,13 @@ def run_case(case, rng):
     with runtime_builtin():
         env = Env([name])
         lk = TemplateLookup(**opts) if how == "lookup" else TemplateLookup()
-        lk.put_string("lib", env.lib())
-        lk.put_string("echo_page", "<%page args='v'/>${v}")
-        for tok in TOKENS:
-            lk.put_string("t_" + tok, tok)
+        if "IMP" in S:
+            lk.put_string("lib", env.lib())
+        if r == "R_INCARGS":
+            lk.put_string("echo_page", "<%page args='v'/>${v}")
+        if r == "R_INCFILE":
+            for tok in TOKENS:
+                lk.put_string("t_" + tok, tok)
         src = build_case(S, r, name, msrc)
         ctx = dict(env.helpers)
         if "CTX" in S:
